@@ -109,8 +109,9 @@ def check_edge_jacobians(ctx, e, where, fd=True, case=None, rng=None):
         return None
     s = edge_scale(e)
     with np.errstate(all="ignore"):
-        real_err = np.atleast_1d(np.asarray(e.calc_error(), dtype=float))
+        # the Jacobians are requested first: they must not depend on state left behind by an earlier calc_error() call
         Js = e.calc_jacobians()
+        real_err = np.atleast_1d(np.asarray(e.calc_error(), dtype=float))
     ref_err, Jref = M.edge_ref_jacobians(e)
     ks = M.edge_kinds(e)
     # structural part
